@@ -182,19 +182,20 @@ def run_C16(tier, seed):
 def run_C17(tier, seed):
     res = Result("C17")
     rng = random.Random(seed)
-    insts = small_instances(2, 2, 2, (1, 2), False, limit=20 if tier == "quick" else 80, rng=rng)
-    for _ in range(15 if tier == "quick" else 120):
-        insts.append(random_instance(rng, 3, 3, 3, positive=True, flexible=False))
+    insts = small_instances(2, 2, 2, (1, 2), False, limit=14 if tier == "quick" else 80, rng=rng)
+    insts += small_instances(2, 2, 2, (1, 2), True, limit=6 if tier == "quick" else 40, rng=rng)
+    for _ in range(18 if tier == "quick" else 150):
+        insts.append(random_instance(rng, 3, 3, 3, positive=True, flexible=rng.random() < 0.5))
     cap = 120 if tier == "quick" else 1500
     options = [(True, True), (True, False), (False, True), (False, False)]
-    res.bound = {"instances": "%d non-flexible instances with positive durations (<=2x2x2 sampled + random <=3x3x3, seed "
+    res.bound = {"instances": "%d instances (flexible and not) with positive durations (<=2x2x2 sampled + random <=3x3x3, seed "
                               "%d)" % (len(insts), seed),
                  "histories": "DFS over dispatch histories capped at %d states per (instance, builder, options); one "
                               "dispatcher per path, invariants after every dispatch" % cap,
                  "configurations": "4 builders x 4 (remove machine nodes, remove job nodes) options"}
     for jobs in insts:
         M = 1 + max(m for job in jobs for ms, _ in job for m in ms)
-        every_machine_used = all(any(ms[0] == m for job in jobs for ms, _ in job) for m in range(M))
+        every_machine_used = all(any(m in ms for job in jobs for ms, _ in job) for m in range(M))
         for name, builder in BUILDERS.items():
             for (rm, rj) in (options if tier == "thorough" else options[:1] + [rng.choice(options[1:])]):
                 # walk several random maximal histories step by step
@@ -226,7 +227,7 @@ def run_C17(tier, seed):
                                 if jp not in sched and n.node_id in removed:
                                     problems.append(f"unscheduled operation {jp} removed")
                             elif n.node_type == NodeType.MACHINE and n.node_id in removed:
-                                if any(ms[0] == n.machine_id and (jj, pp) not in sched
+                                if any(n.machine_id in ms and (jj, pp) not in sched
                                        for jj, job in enumerate(jobs) for pp, (ms, _) in enumerate(job)):
                                     problems.append(f"machine node {n.machine_id} removed with unscheduled operations")
                             elif n.node_type == NodeType.JOB and n.node_id in removed:
